@@ -12,6 +12,8 @@ class _Store:
         self.types = {}
         self.props = {}
         self.writes = []  # (key, value) in order, for harness inspection
+        self.version = {}  # key -> index of the write that produced the current value
+        self.stamps = [0]  # stamps[i] = time of the i-th write: non-decreasing, equal stamps are possible
 
 
 STORE = _Store()
@@ -22,6 +24,8 @@ def reset():
     STORE.types.clear()
     STORE.props.clear()
     del STORE.writes[:]
+    STORE.version.clear()
+    del STORE.stamps[1:]
 
 
 def _copy(v):
@@ -34,6 +38,19 @@ def _write(key, v):
     v = _copy(v)
     STORE.values[key] = v
     STORE.writes.append((key, v))
+    STORE.version[key] = len(STORE.writes)
+
+
+def _stamp(i):
+    """Time stamp of the i-th write: wpi::Now() is only non-decreasing (with paused simulated time several
+    writes carry the same stamp), so each step adds a fresh delta >= 0 (created on demand)."""
+    from engine import symex
+
+    c = symex.ctx()
+    while len(STORE.stamps) <= i:
+        d = c.integer(f"nt_dt{len(STORE.stamps)}", 0, 1000) if c is not None else 1
+        STORE.stamps.append(STORE.stamps[-1] + d)
+    return STORE.stamps[i]
 
 
 def _norm(k):
@@ -101,6 +118,17 @@ class _Entry:
 
     def exists(self):
         return self.key in STORE.values
+
+    def getLastChange(self):
+        return _stamp(STORE.version.get(self.key, 0))
+
+    def getAtomic(self, *a):
+        import types
+
+        return types.SimpleNamespace(value=self.get(*a), time=self.getLastChange(), serverTime=self.getLastChange())
+
+    def readQueue(self):
+        return []
 
     def getTopic(self):
         return Topic(self.key)
